@@ -431,6 +431,8 @@ func newLeaf(parent Tree, r *Route, s *Segment, h Handler) (Leaf, error) {
 		if _, exists := parentBindSet[bind]; exists {
 			return nil, errors.Errorf("duplicated bind parameter %q in position %d", bind, s.Pos.Offset)
 		}
+		// A bind parameter must not be reused within the segment either.
+		parentBindSet[bind] = struct{}{}
 	}
 
 	return &regexLeaf{
